@@ -440,44 +440,10 @@ theorem tagsOK_all (ber : Bytes) : ∀ f : Nat,
       · rw [TagsOK]; exact ht
       · rw [TagsOK]; exact ⟨ht, ihI _ _ _ _ _ _ hi⟩
     · intro off ce ind d os e h
-      rw [readItems] at h
-      split at h
-      · injection h with h; injection h with h _; subst h; simp [TagsOKItems]
-      · cases ho : readObject f ber off d with
-        | error e => simp [ho] at h
-        | ok r =>
-          obtain ⟨o, e1⟩ := r
-          simp only [ho] at h
-          have hO := ihO _ _ _ _ ho
-          have hcons : ∀ os1 e2, readItems f ber e1 ce ind d = .ok (os1, e2) → TagsOKItems (o :: os1) := by
-            intro os1 e2 hi
-            rw [TagsOKItems]; exact ⟨hO, ihI _ _ _ _ _ _ hi⟩
-          have hsingle : TagsOKItems [o] := by simp [TagsOKItems, hO]
-          cases ind with
-          | true =>
-            simp only [if_true] at h
-            split at h
-            · simp at h
-            · split at h
-              · injection h with h; injection h with h _; subst h; exact hsingle
-              · cases hi : readItems f ber e1 ce true d with
-                | error e => simp [hi] at h
-                | ok r =>
-                  obtain ⟨os1, e2⟩ := r
-                  simp only [hi] at h
-                  injection h with h; injection h with h _; subst h
-                  exact hcons _ _ hi
-          | false =>
-            simp only [Bool.false_eq_true, if_false] at h
-            split at h
-            · simp at h
-            · cases hi : readItems f ber e1 ce false d with
-              | error e => simp [hi] at h
-              | ok r =>
-                obtain ⟨os1, e2⟩ := r
-                simp only [hi] at h
-                injection h with h; injection h with h _; subst h
-                exact hcons _ _ hi
+      rcases Props.C18.readItems_ok_cases h with ⟨hos, _, _, _⟩ | ⟨o, e1, os1, ho, hi, hos, _, _⟩
+      · subst hos; simp [TagsOKItems]
+      · subst hos
+        rw [TagsOKItems]; exact ⟨ihO _ _ _ _ ho, ihI _ _ _ _ _ _ hi⟩
 
 mutual
 /-- an object tree with well-shaped tags whose encoding is shorter than 2^31 bytes is well-formed: all
